@@ -13,6 +13,11 @@ CHECKS = {
    technique="TLA+ specs ArchiveDelta (delta encoder/loader) and Cadence (auto-snapshot protocol) checked by TLC; real archive histories validated against Trace_ArchiveDelta; TLC-simulated Cadence behaviours replayed into the library",
    text="TLC checks exhaustively that Overlay(first, Diff(first,cur)) = cur for every pair of states of a 4-field model (scalar and pointer kinds; changed, grown, shrunk, vanished, new fields) with Diff and Overlay transcribed from reb_binary_diff / reb_input_fields, and that the auto-snapshot protocol (advance next, then write; re-attach keeps next; restart from last snapshot) yields exactly the prescribed progression. Binding: seeded random histories of real operations (steps, add/remove, remove-all, integrator switch/reset, option changes, variations, N_active) interleaved with appends; after every append the file is parsed into field records and snapshots are reloaded; TLC validates every history against Trace_ArchiveDelta (delta on disk = Diff(first,cur) in descriptor order, header sizes match payloads, reader count/time, reload = state when written, all invariants). 150-1500 TLC-generated Cadence behaviours are replayed on real simulations comparing t, steps, next, next_step and every stored snapshot after each action.",
    note="Payload equality is by SHA-256 of the bytes with pointer members masked; histories are seeded random, not exhaustive; walltime-based cadence is not modelled; collisions changing N are exercised only as add/remove."),
+ "C07": dict(
+   category="fault_enumeration", design_ref="DESIGN.md 4/C07",
+   technique="TLA+ spec ArchiveFile (reader, writer+repair, crash images) checked by TLC; every byte-level crash image of real archives observed in forked children and validated by TLC against Trace_ArchiveFile",
+   text="TLC explores every crash point (each cell boundary, inside each cell, the in-place trailer patch with partially written offset) of every save, up to 2-3 crash/restart cycles, and checks that exposed snapshots are the uninterrupted run's, an error is reported iff nothing is exposed, completed snapshots are never lost, the writer never refuses to continue, and a restarted run converges. Binding at byte granularity: for reference archives of 2 (quick) / 8 (thorough) integrators the C driver builds the image for byte counts of every write (thorough: every byte), and in a forked child opens it, reloads all exposed snapshots, restarts from the last one and runs to the end; each image is projected to cells and TLC evaluates the specification's reader and writer on it: 7 clauses (no signal, reader result = spec reader, exactly the completed snapshots, error iff none, exposed identical, file after restart = spec writer's prediction, convergence). The same images are opened through rebound.Simulationarchive / Simulation(file) in forked interpreters.",
+   note="Assumes prefix persistence (one buffered stream, increasing offsets); snapshot identity by 64-bit digest of t/N/steps/dt/particles; restarts are deterministic re-runs; power-loss reordering is out of scope."),
 }
 
 NOT_YET = {
